@@ -1633,14 +1633,16 @@ class SingleDispatch:
     of the module that defines f (they run at import time; the defs they decorate are usually all called `_`)"""
     not_none = True
 
-    def __init__(self, it, f):
+    def __init__(self, it, f, method=False):
         from .front import FuncRef
-        self.f, self.table = f, []         # [(type value, FuncRef)]
+        self.f, self.table, self.method = f, [], method         # [(type value, FuncRef)]
         mod = it.prog.modules.get(f.module)
         from .interp import Frame
-        for st in (mod.tree.body if mod is not None else []):
+        # singledispatch: the registrations are among the module's statements; singledispatchmethod: among those of the class body
+        body = (f.cls.node.body if method and f.cls is not None else mod.tree.body if mod is not None else [])
+        for st in body:
             if isinstance(st, (ast.FunctionDef,)):
-                g = FuncRef(st, f.module)
+                g = FuncRef(st, f.module, f.cls if method else None)
                 for d in st.decorator_list:
                     core = d.func if isinstance(d, ast.Call) else d
                     if isinstance(core, ast.Attribute) and core.attr == 'register' and isinstance(core.value, ast.Name) and core.value.id == f.name:
@@ -1704,9 +1706,13 @@ class SingleDispatch:
         return self.f
 
     def abs_call(self, it, args, kw, n):
-        if not args:
+        k = 1 if self.method else 0
+        if len(args) <= k:
             raise RaiseEx('TypeError', f'{self.f.name} requires at least 1 positional argument')
-        return it.call(self.pick(it, args[0]), list(args), dict(kw), n)
+        return it.call(self.pick(it, args[k]), list(args), dict(kw), n)
+
+    def abs_bind(self, inst):
+        return Native(lambda it_, args, kw, node: self.abs_call(it_, [inst] + list(args), kw, node), f'{self.f.name} (bound)') if self.method else self
 
 
 class ContextManagerFactory:
